@@ -62,18 +62,13 @@ fn main() {
     let mut ev = Evidence::new(id, if thorough { "thorough" } else { "quick" });
     match id {
         "C01" | "C02" | "C03" | "C04" | "C07" | "C08" | "C10" | "C12" | "C13" | "C14" | "C19" | "C05" | "C06" => {
-            let e2_first = matches!(id, "C05" | "C06" | "C07");
-            if e2_first {
-                run_e2_property(id, thorough, &mut ev);
+            // cheap, deep explorers first (never capped); the bulk E1 families last (wall-capped in the quick tier)
+            run_e2_property(id, thorough, &mut ev);
+            if matches!(id, "C03" | "C04" | "C07" | "C08" | "C10" | "C13" | "C19") && !report::stopped() {
+                run_e3_property(id, thorough, &mut ev);
             }
             if !report::stopped() {
                 run_e1_property(id, thorough, &mut ev, t0);
-            }
-            if !e2_first && !report::stopped() {
-                run_e2_property(id, thorough, &mut ev);
-            }
-            if matches!(id, "C03" | "C04" | "C07" | "C08" | "C10" | "C13" | "C19") && !report::stopped() {
-                run_e3_property(id, thorough, &mut ev);
             }
         }
         "C09" => {
@@ -154,7 +149,11 @@ fn run_e1_property(id: &str, thorough: bool, ev: &mut Evidence, t0: Instant) {
     let cap = if thorough { Duration::from_secs(3300) } else { Duration::from_secs(50) };
     let deadline = Some(t0 + cap);
     let seeds = families::fs_with(&verif_dir().join("seeds"), thorough);
-    let mut fams: Vec<families::Family> = vec![families::f1(), families::f2(), families::fd(2, 2, families::all_anchors(2, 2), 3, "all 49 anchors"), seeds, families::fsetup(if thorough { 12 } else { 4 }, if thorough { 8 } else { 3 }), if thorough { families::fplus(families::interior_squares(), 3, "every interior square") } else { families::fplus(vec![18, 21, 42, 45, 49, 35, 34, 14], 3, "the 4 traps, b2, d4, c4, g7") }];
+    // order: small / dense / deep families first (never capped), bulk families last (capped in the quick tier)
+    let mut fams: Vec<families::Family> = vec![families::f1(), families::fsetup(if thorough { 12 } else { 4 }, if thorough { 8 } else { 3 }), seeds, if thorough { families::fplus(families::interior_squares(), 3, "every interior square") } else { families::fplus(vec![18, 21, 42, 45, 49, 35, 34, 14], 3, "the 4 traps, b2, d4, c4, g7") }];
+    let uncapped = fams.len();
+    fams.push(families::f2());
+    fams.push(families::fd(2, 2, families::all_anchors(2, 2), 3, "all 49 anchors"));
     if thorough {
         fams.push(families::f3w(None, &families::ALL_KINDS, "all 36 windows, all 12 kinds"));
         let a23: Vec<(usize, usize)> = vec![(0, 0), (1, 1), (4, 1), (2, 4), (5, 5), (3, 3)];
@@ -167,10 +166,37 @@ fn run_e1_property(id: &str, thorough: bool, ev: &mut Evidence, t0: Instant) {
         fams.push(families::f3w(Some(&families::QUICK_ANCHORS5), &families::KINDS8, "5 windows (a1 corner, h8 corner, c3-centred, f6-centred, centre), kinds RCDErcde"));
     }
     let mut first_f1: Option<report::Stats> = None;
-    for fam in fams.iter() {
+    if id == "C03" {
+        for mn in [1usize, 3, 50, 255, 300, 65_535, 70_000, 1_000_000, (1usize << 32) - 1, (1usize << 32) + 1] {
+            let o = e1::E1Opts { prop: id, checks, move_number: mn, deadline: None, chunk: 1, roots_only: false, max_turns: 1 };
+            let mut r = e1::run_family(&families::f1(), &o);
+            r.family = format!("{} — starting move number {}", r.family, mn);
+            ev.families.push(r);
+        }
+    }
+    if id == "C04" && !report::stopped() {
+        // C04 is decided at turn starts: dense corner / edge jams are evaluated at the root only (no expansion)
+        let mut dense: Vec<families::Family> = vec![
+            families::fd(2, 4, vec![(0, 0), (6, 0), (0, 4), (6, 4)], 4, "the 4 corners"),
+            families::fd(4, 2, vec![(0, 0), (4, 0), (0, 6), (4, 6)], 4, "the 4 corners"),
+        ];
+        if thorough {
+            dense.push(families::fd(3, 3, vec![(0, 0), (5, 0), (0, 5), (5, 5)], 4, "the 4 corners"));
+            dense.push(families::fd(2, 4, vec![(3, 0), (3, 4), (0, 2), (6, 2)], 4, "edge middles"));
+        }
+        for fam in dense.iter() {
+            let o = e1::E1Opts { prop: id, checks, move_number: 2, deadline: None, chunk: 1, roots_only: true, max_turns: 1 };
+            let mut r = e1::run_family(fam, &o);
+            r.family = format!("{} — turn-start oracle at the root only", r.family);
+            eprintln!("  {} : roots={} {:.1}s", r.family, r.stats.roots, r.wall_s);
+            ev.families.push(r);
+        }
+    }
+    for (fi, fam) in fams.iter().enumerate() {
         if fam.n == 0 {
             continue;
         }
+        let deadline = if fi < uncapped { None } else { deadline };
         let extra = if id == "C08" && fam.name.starts_with("F1 ") {
             PARSE_LINK
         } else if id == "C08" && fam.name.starts_with("FS ") {
@@ -195,14 +221,6 @@ fn run_e1_property(id: &str, thorough: bool, ev: &mut Evidence, t0: Instant) {
         let r = e1::run_family(&fs2, &o);
         eprintln!("  {} : roots={} states={} transitions={} {:.1}s {}", r.family, r.stats.roots, r.stats.states, r.stats.transitions, r.wall_s, r.note);
         ev.families.push(r);
-    }
-    if id == "C03" && !report::stopped() {
-        for mn in [1usize, 3, 50, 255, 300, 65_535, 70_000, 1_000_000, (1usize << 32) - 1, (1usize << 32) + 1] {
-            let o = e1::E1Opts { prop: id, checks, move_number: mn, deadline, chunk: 1, roots_only: false, max_turns: 1 };
-            let mut r = e1::run_family(&families::f1(), &o);
-            r.family = format!("{} — starting move number {}", r.family, mn);
-            ev.families.push(r);
-        }
     }
     // determinism: the same family explored with a different thread partition must give identical counts and digest
     if let (Some(f1), false) = (first_f1, report::stopped()) {
